@@ -297,6 +297,14 @@ class HTTPApiDecoder:
         model.Reference: XMLConstructables.REFERENCE
     }
 
+    # The XML reader constructs the requested class from the child elements it finds without looking at the tag of the
+    # element itself, so e.g. a shell would be accepted where a submodel is expected. Identifiables are told apart here.
+    xml_root_tags = {
+        model.AssetAdministrationShell: "assetAdministrationShell",
+        model.Submodel: "submodel",
+        model.ConceptDescription: "conceptDescription"
+    }
+
     @classmethod
     def check_type_supportance(cls, type_: type):
         if type_ not in cls.type_constructables_map:
@@ -366,6 +374,9 @@ class HTTPApiDecoder:
     def xml(cls, data: bytes, expect_type: Type[T], stripped: bool) -> T:
         cls.check_type_supportance(expect_type)
         try:
+            expected_tag = cls.xml_root_tags.get(expect_type)
+            if expected_tag is not None and etree.QName(etree.fromstring(data)).localname != expected_tag:
+                raise UnprocessableEntity(f"Expected an element {expected_tag}, describing a {expect_type.__name__}!")
             xml_data = io.BytesIO(data)
             rv = read_aas_xml_element(xml_data, cls.type_constructables_map[expect_type],
                                       stripped=stripped, failsafe=False)
